@@ -65,9 +65,10 @@ class C13(Prop):
                   "the crash/hang half is support, not proof: a tool death outside the explored inputs is not excluded. "
                   "Tools with no reference function (esl-ssdraw, -alimerge, -alimap, -construct, -histplot, -mixdchlet) are covered by the search only; "
                   "esl-alistat --small, esl-alimask --small, esl-reformat --small/--id_map by python monitors or the search only. "
-                  "The 16 deaths recorded at the start of round 4 and one more found while modelling esl-alimask -p were repaired in /repo (13 patches proposed by this builder); their witnesses run "
-                  "as regression cases, as does the Clustal-writer zero-column abort (fc170bb). Open (patches proposed, known-finding entries): esl_sq_Copy text->digital "
-                  "#=GR markup one byte short (esl-alimanip --trim), esl-compalign -p NULL ta->pp[i].")
+                  "The 16 deaths recorded at the start of round 4 and one more found while modelling esl-alimask -p were repaired in /repo (18 patches proposed by this builder in all); their witnesses run "
+                  "as regression cases, as do five more found in round 4 by the new references and by the thorough tier once every tool was back in the seed-dependent "
+                  "stream (Clustal writer on zero columns fc170bb, esl_sq_Copy #=GR markup b033cd2, esl-compalign -p 6402139, esl-alimanip --c-mx b282134, "
+                  "esl_sqfile_PositionByKey e3f8b5b). No known finding is open.")
     trusted_base = ["reference functions (lean/EaselModel/Miniapps) tied to the tools by exact stdout comparison on generated valid inputs",
                     "python runner harness/h_miniapps.py, gcc, ASan/UBSan/LSan, process/file-system behaviour",
                     "Lean compiler/runtime for the executable driver; libc printf rounding modelled by exact rational rounding (L0)"]
